@@ -300,7 +300,7 @@ def mutate(rng, data, others=None, nmut=None):
     k = nmut if nmut is not None else rng.choice([1, 1, 1, 2, 3, 5])
     for _ in range(k):
         if not lines: lines = [b""]
-        op = rng.randrange(22)
+        op = rng.randrange(26)
         i = rng.randrange(len(lines))
         ln = lines[i]
         body = ln.rstrip(b"\r\n"); term = ln[len(body):]
@@ -353,9 +353,102 @@ def mutate(rng, data, others=None, nmut=None):
         elif op == 20:                              # add an annotation line of arbitrary width
             tag = rng.choice([b"#=RF ", b"#=CS ", b"#=SS ", b"#=SA ", b"#=GC SS_cons ", b"#=GC RF ", b"#=GC XX ", b"#=GR %s SS " % (body.split()[0] if body.split() else b"x"), b"#=GS x WT 1.0", b"#=GF ID foo", b"# c"])
             lines.insert(i + 1, tag + bytes(rng.choice(b"xX.<>-") for _ in range(rng.choice([0, 1, len(body), max(0, len(body) - len(tag)), 60]))) + (term or b"\n"))
+        elif op == 22:                              # per-sequence annotation for a name never seen in any block, anywhere (also after the last block)
+            nm = rng.choice([b"newseq", b"zz9", body.split()[0] + b"x" if body.split() else b"q"])
+            ann = b"#=GS " + nm + rng.choice([b" DE some text", b" AC X12345", b" WT 0.50", b" OS tag value", b" WT x", b""]) + (term or b"\n")
+            where = rng.choice(["here", "before_end", "after_blank"])
+            if where == "before_end":
+                ends = [j for j, l in enumerate(lines) if l.startswith(b"//")]
+                lines.insert(ends[-1] if ends else len(lines), ann)
+            elif where == "after_blank":
+                blanks = [j for j, l in enumerate(lines) if not l.strip()]
+                lines.insert((rng.choice(blanks) + 1) if blanks else i, ann)
+            else: lines.insert(i + 1, ann)
+        elif op in (23, 24):                        # rename / swap the tag of ONE Stockholm/SELEX annotation line (other-tags renamed between blocks)
+            ann = [j for j, l in enumerate(lines) if l.lstrip(b" \t").startswith((b"#=GC", b"#=GR", b"#=GS", b"#=GF", b"#=RF", b"#=CS", b"#=SS", b"#=SA", b"#=MM"))]
+            if ann:
+                j = rng.choice(ann); toks = lines[j].split(b" ")
+                nonempty = [x for x, t in enumerate(toks) if t.strip()]
+                pos = 2 if toks[0].strip().startswith((b"#=GR", b"#=GS")) else 1
+                if len(nonempty) > pos:
+                    x = nonempty[pos]; old = toks[x]
+                    others = [l.split()[pos] for l in lines if len(l.split()) > pos and l.split()[0] == toks[0].strip()]
+                    new = rng.choice([b"ZZ", b"YY", b"SS_cons", b"SA_cons", b"PP_cons", b"RF", b"MM", b"SS", b"SA", b"PP", b"ID", b"WT", b"AC", b"DE", old[:-1] or b"Q", old + b"x"] + others)
+                    if op == 24: new = new.ljust(len(old))[:max(len(old), len(new))] if len(new) <= len(old) else new    # keep column alignment when it fits
+                    toks[x] = new
+                    lines[j] = b" ".join(toks)
+        elif op == 25:                              # drop or duplicate one annotation line (annotation present in only some blocks / twice in a block)
+            ann = [j for j, l in enumerate(lines) if l.lstrip(b" \t").startswith((b"#=GC", b"#=GR", b"#=RF", b"#=CS", b"#=SS", b"#=SA", b"#=MM"))]
+            if ann:
+                j = rng.choice(ann)
+                if rng.random() < 0.5: del lines[j]
+                else: lines.insert(j, lines[j])
         elif op == 21 and body:                     # drop the final newline of the file
             lines[-1] = lines[-1].rstrip(b"\r\n")
     return b"".join(lines)
+
+
+def block_anomaly(rng, fmt):
+    """multi-block Stockholm / SELEX file built block by block, then ONE block is made to disagree with the others in its
+    annotation lines: tag renamed, line dropped / added / duplicated / reordered / of another width, row renamed or moved.
+    (the malformed stream for per-block bookkeeping: blinetype/bidx/ogc_len/ogr_len, lpos/rpos)"""
+    n = rng.choice([1, 2, 3, 5]); nblk = rng.choice([2, 2, 3, 4]); w = rng.choice([1, 4, 9, 13])
+    kind = rng.choice(["amino", "dna"])
+    a = rand_aln(rng, kind, n, w * nblk, gapchars="-.", lower=False, maxname=8, namechars="abcdefghijklmnopqrstuvwxyz0123456789_")
+    col = lambda chars, k: "".join(rng.choice(chars) for _ in range(k))
+    blocks = []
+    if fmt == "selex":
+        tags = [t for t in ("#=RF", "#=CS", "#=MM") if rng.random() < 0.5]
+        per = [t for t in ("#=SS", "#=SA") if rng.random() < 0.5]
+        for b in range(nblk):
+            ls = [(t, col("xX.<>", w)) for t in tags]
+            for i in range(n):
+                ls.append((a.names[i], a.rows[i][b * w:(b + 1) * w]))
+                for t in per: ls.append((t, col("HE.<>", w)))
+            blocks.append(ls)
+    else:
+        gc = [t for t in ("SS_cons", "RF", "YY", "ZZtag", "PP_cons") if rng.random() < 0.5] or ["YY"]
+        gr = [t for t in ("SS", "PP", "QQ", "csa") if rng.random() < 0.5] or ["QQ"]
+        for b in range(nblk):
+            ls = []
+            for i in range(n):
+                ls.append((a.names[i], a.rows[i][b * w:(b + 1) * w]))
+                for t in gr:
+                    if i % 2 == 0 or t == "QQ": ls.append(("#=GR %s %s" % (a.names[i], t), col("abc.*", w)))
+            for t in gc: ls.append(("#=GC " + t, col("xyz.<>", w)))
+            blocks.append(ls)
+    # the anomaly
+    b = rng.randrange(nblk); ls = blocks[b]
+    ann = [j for j, (h, _) in enumerate(ls) if h.startswith("#=")]
+    op = rng.randrange(9)
+    if op == 0 and ann:      # rename the tag of one annotation line
+        j = rng.choice(ann); h, t = ls[j]; parts = h.split(" ")
+        parts[-1] = rng.choice(["WW", "Vtag", parts[-1] + "2", parts[-1][:-1] or "K", "RF", "SS_cons", "SS", "PP", "#=RF", "#=CS"]) if not h.startswith(("#=RF", "#=CS", "#=MM", "#=SS", "#=SA")) else rng.choice(["#=RF", "#=CS", "#=MM", "#=SS", "#=SA", "#=XX"])
+        ls[j] = (" ".join(parts), t)
+    elif op == 1 and ann: del ls[rng.choice(ann)]
+    elif op == 2 and ann: j = rng.choice(ann); ls.insert(j, ls[j])
+    elif op == 3 and len(ann) >= 2:
+        j, k = rng.sample(ann, 2); ls[j], ls[k] = ls[k], ls[j]
+    elif op == 4 and ann:    # width of one annotation line
+        j = rng.choice(ann); h, t = ls[j]; ls[j] = (h, rng.choice([t[:-1], t + "x", t + "xxxx", "", t[: len(t) // 2]]))
+    elif op == 5:            # extra annotation line of a new tag in this block only
+        ls.insert(rng.randrange(len(ls) + 1), ("#=GC NEWTAG" if fmt != "selex" else "#=RF", col("x.", w)))
+    elif op == 6:            # rename a row in this block
+        rows = [j for j, (h, _) in enumerate(ls) if not h.startswith("#=")]
+        j = rng.choice(rows); ls[j] = (ls[j][0] + "x", ls[j][1])
+    elif op == 7 and len(ls) >= 2:
+        j, k = rng.sample(range(len(ls)), 2); ls[j], ls[k] = ls[k], ls[j]
+    elif op == 8:            # row of another width
+        rows = [j for j, (h, _) in enumerate(ls) if not h.startswith("#=")]
+        j = rng.choice(rows); h, t = ls[j]; ls[j] = (h, rng.choice([t[:-1], t + "A", t + "ACGT"]))
+    wn = max(len(h) for bl in blocks for h, _ in bl) + 2
+    out = ["# STOCKHOLM 1.0"] if fmt != "selex" else []
+    for bi, bl in enumerate(blocks):
+        if bi or fmt != "selex": out.append("")
+        for h, t in bl: out.append(h.ljust(wn) + t)
+    if fmt != "selex": out.append("//")
+    nl = rng.choice(["\n", "\n", "\r\n"])
+    return (nl.join(out) + nl).encode("latin-1")
 
 
 def raw_bytes(rng):
